@@ -321,6 +321,9 @@ func (pc *PrepCase) body(c *Case) func(b *harness.BodyCtx) {
 			simrt.EnvPoint("env:prepare", false, 0)
 			b.W.Log(world.Event{Kind: world.EvClient, Data: map[string]any{"what": "prepare-begin"}})
 			wf, err := b.Env.Prepare(prog.YAML(), files)
+			if b.Sim.Draining() {
+				return // released by the teardown of a stuck run
+			}
 			simrt.EnvPoint("env:prepared", false, 0)
 			b.W.Log(world.Event{Kind: world.EvClient, Data: map[string]any{"what": "prepare-end", "ok": err == nil}})
 			r := prepResult{yaml: prog.YAML()}
